@@ -400,6 +400,9 @@ impl RefCountTable {
 		let mut entry_buf = [0u8; ENTRY_BYTES];
 		log.read(&mut mask_buf)?;
 		let mut mask = u64::from_le_bytes(mask_buf);
+		if mask >> CHUNK_ENTRIES != 0 {
+			return Err(Error::Corruption("Bad ref count entry mask".into()))
+		}
 		while mask != 0 {
 			let i = mask.trailing_zeros();
 			mask &= !(1 << i);
